@@ -5,10 +5,10 @@ package main
 // configuration a server uses is always one its log (or snapshot) holds.
 
 var (
-	cfg4   = []srv{{0, 1, 1}, {0, 2, 2}, {0, 3, 3}, {0, 4, 4}}      // + D voter
-	cfgAnv = []srv{{0, 1, 1}, {1, 2, 2}, {0, 3, 3}}                 // A demoted
-	cfg2   = []srv{{0, 1, 1}, {0, 3, 3}}                            // A removed
-	cfgSnv = []srv{{1, 1, 1}, {0, 2, 2}, {0, 3, 3}}                 // self demoted
+	cfg4   = []srv{{0, 1, 1}, {0, 2, 2}, {0, 3, 3}, {0, 4, 4}} // + D voter
+	cfgAnv = []srv{{0, 1, 1}, {1, 2, 2}, {0, 3, 3}}            // A demoted
+	cfg2   = []srv{{0, 1, 1}, {0, 3, 3}}                       // A removed
+	cfgSnv = []srv{{1, 1, 1}, {0, 2, 2}, {0, 3, 3}}            // self demoted
 )
 
 func eqSrvs(a, b []srv) bool {
